@@ -11,7 +11,7 @@ Definition src2_issuer (v_self : pyval) : pyval :=
   (py_bind (p2_strip (p2_ifexp (p2_is_not_none (p2_attr_x (p2_attr_x v_self "response") "issuer")) (p2_attr_x (p2_attr_x (p2_attr_x v_self "response") "issuer") "text") (PStr ""))) (fun v_issuer_value =>
    v_issuer_value)).
 
-(* saml2/sigver.py:SecurityContext.correctly_signed_response, lines 1679-1706 *)
+(* saml2/sigver.py:SecurityContext.correctly_signed_response, lines 1684-1711 *)
 Definition src2_correctly_signed_response (parse_resp : pyval -> pyval) (check_sig : pyval -> pyval -> pyval -> pyval -> pyval) (v_self : pyval) (v_decoded_xml : pyval) (v_must : pyval) (v_origdoc : pyval) (v_only_valid_cert : pyval) (v_require_response_signature : pyval) (v_kwargs : pyval) : pyval :=
   let v_response := PErr in
   (py_bind (py_bind v_decoded_xml (fun a_1 => (parse_resp a_1))) (fun v_response =>
@@ -38,7 +38,7 @@ Definition src2_correctly_signed_response (parse_resp : pyval -> pyval) (check_s
    | BErr => PErr
    end))).
 
-(* saml2/sigver.py:CryptoBackendXmlSec1.validate_signature, lines 833-870 *)
+(* saml2/sigver.py:CryptoBackendXmlSec1.validate_signature, lines 838-875 *)
 Definition src2_validate_signature (run_xmlsec : pyval -> pyval -> pyval) (parse_out : pyval -> pyval -> pyval) (v_self : pyval) (v_signedtext : pyval) (v_cert_file : pyval) (v_cert_type : pyval) (v_node_name : pyval) (v_node_id : pyval) : pyval :=
   let v_tmp := PErr in
   let v_com_list := PErr in
